@@ -34,6 +34,3 @@ Definition pinned_decls_ring : list string :=
 
 Definition ok_ring : Prop :=
   of_file fst "ring.go" InvRing.inventory = pinned_ring /\ of_file (fun s => s) "ring.go" InvRing.decls = pinned_decls_ring.
-
-Lemma C10_ring_inventory_ring : InvRing.files = pinned_files /\ ok_ring.
-Proof. unfold ok_ring; repeat split; vm_compute; reflexivity. Qed.
